@@ -4,6 +4,7 @@ import (
 	"bytes"
 	"encoding/base64"
 	"encoding/hex"
+	"strconv"
 	"strings"
 )
 
@@ -62,6 +63,14 @@ func (w *World) addPatterns(what string, raw []byte) {
 	add(append([]byte(nil), win...), "raw")
 	add([]byte(hex.EncodeToString(win)), "hex")
 	add([]byte(strings.ToUpper(hex.EncodeToString(win))), "HEX")
+	// Go's default formatting of a byte slice (%v / %+v of a struct holding it): "[205 130 7 ...]"
+	dec := make([]string, 8)
+	for i := 0; i < 8; i++ {
+		dec[i] = strconv.Itoa(int(raw[i]))
+	}
+	add([]byte(strings.Join(dec, " ")), "decimal list")
+	add([]byte(strings.Join(dec, ",")), "decimal list")
+	add([]byte(strings.Join(dec, ", ")), "decimal list")
 	// base64 of a substring depends on alignment: index the three alignments of the interior
 	for off := 0; off < 3; off++ {
 		inner := raw[off:]
@@ -101,3 +110,13 @@ func (w *World) KMSRequests() [][]byte { return w.kmsRequests }
 
 // SecretShadow returns the harness-private copy of a secret's plaintext.
 func (s *SecretRec) Shadow() []byte { return s.shadow }
+
+// AddSensitiveKey registers key plaintext the harness learned outside the ledger (e.g. a cloud KMS data key).
+func (w *World) AddSensitiveKey(b []byte) {
+	if len(b) >= 16 {
+		w.addPatterns("key", append([]byte(nil), b...))
+	}
+}
+
+// ScanEmitted scans an arbitrary emitted byte string (used by engines that own their seams).
+func (w *World) ScanEmitted(where string, b []byte) { w.scanLeak(where, b, false) }
